@@ -25,6 +25,7 @@ func main() {
 	dumpCalls := flag.String("calls", "", "with -dump: also list calls whose callee name contains this substring ('*' = all)")
 	writes := flag.Bool("writes", false, "list every KVStore Set/Delete site in scope with its key shape")
 	shapes := flag.String("shapes", "", "print the key shape of the given function specs (comma separated)")
+	gen := flag.String("gen", "", "print FnSpec skeletons for the given function specs (comma separated); -calls filters effects")
 	noEv := flag.Bool("no-evidence", false, "do not write evidence files")
 	flag.Parse()
 	if t := os.Getenv("VERIF_TIER"); t != "" && *tier == "" {
@@ -53,6 +54,12 @@ func main() {
 	if *shapes != "" {
 		for _, spec := range strings.Split(*shapes, ",") {
 			fmt.Printf("%s = %s\n", spec, p.ShapeOfFunc(p.Func(spec)))
+		}
+		return
+	}
+	if *gen != "" {
+		for _, spec := range strings.Split(*gen, ",") {
+			genSpec(p, spec, *dumpCalls)
 		}
 		return
 	}
@@ -130,8 +137,8 @@ func dumpFunc(p *Program, fn *ssa.Function, callFilter string) {
 		}
 		if r, ok := b.Instrs[len(b.Instrs)-1].(*ssa.Return); ok {
 			var rs []string
-			for _, v := range r.Results {
-				rs = append(rs, a.X.E(v).String())
+			for i := range r.Results {
+				rs = append(rs, a.X.E(RetVal(r, i)).String())
 			}
 			var conds []string
 			for s := range a.PathCondStrings(b) {
